@@ -1415,6 +1415,9 @@ func (h *ResponseHeader) setSpecialHeader(key, value []byte) bool {
 			if contentLength, err := parseContentLength(value); err == nil {
 				h.contentLength = contentLength
 				h.contentLengthBytes = append(h.contentLengthBytes[:0], value...)
+				// Same as SetContentLength: never send Content-Length
+				// together with 'Transfer-Encoding: chunked'.
+				h.h = delAllArgs(h.h, HeaderTransferEncoding)
 			}
 			return true
 		case caseInsensitiveCompare(strContentEncoding, key):
